@@ -71,6 +71,13 @@ fn s_pattern(g: &mut Graph, pat: &str, rng: &mut impl Rng) {
                 g.add(s[i], s[(i + 1) % k]);
             }
         }
+        "selfring" => {
+            // every member rates itself and exactly one other member
+            for i in 0..k {
+                g.add(s[i], s[i]);
+                g.add(s[i], s[(i + 1) % k]);
+            }
+        }
         "clique" => {
             for &x in &s {
                 for &y in &s {
@@ -174,7 +181,22 @@ fn random_graph(rng: &mut impl Rng) -> (Graph, String) {
             }
         }
     }
-    let pats = ["self", "ring", "clique", "star", "chain", "random", "random", "none"];
+    // outside nodes that only ever file failure reports (about outside nodes and about members of S): their statements carry
+    // no trust, so they count as nodes without outgoing statements
+    let grumpy = [0.0, 0.0, 0.3, 0.9][rng.gen_range(0..4)];
+    let all: Vec<usize> = (1..=na + nh + ns).collect();
+    for &x in &outside {
+        let silent = !g.stmts.iter().any(|(f, _, _)| *f == x);
+        if silent && rng.gen_bool(grumpy) {
+            for _ in 0..rng.gen_range(1..=3) {
+                let y = all[rng.gen_range(0..all.len())];
+                if y != x {
+                    g.stmts.push((x, y, vec![false; rng.gen_range(1..3)]));
+                }
+            }
+        }
+    }
+    let pats = ["self", "ring", "clique", "star", "chain", "random", "random", "none", "selfring"];
     let mut pat = pats[rng.gen_range(0..pats.len())];
     if pat == "clique" && ns > 60 {
         pat = "star";
